@@ -149,6 +149,7 @@ package middleware
 //@   ghost let retryctx = ctxOf(msg) @loop 1
 //@   inv loop 1: ctx == retryctx || ctxparent(ctx) == retryctx [every-wait-listens-to-the-context-the-message-had-when-retrying-began-or-to-a-child-of-it]
 //@   inv loop 1: fresh(expBackoff) [the-back-off-state-belongs-to-this-message-alone]
+//@   inv loop 1: expBackoff.InitialInterval == r.InitialInterval && expBackoff.MaxInterval == r.MaxInterval && expBackoff.Multiplier == r.Multiplier && expBackoff.MaxElapsedTime == r.MaxElapsedTime && expBackoff.RandomizationFactor == r.RandomizationFactor [the-back-off-generator-is-configured-exactly-as-the-middleware-is]
 //@   inv loop 1: ncalls(NB) == old(ncalls(NB)) + retryNum - 1 && ncalls(TA) == old(ncalls(TA)) + retryNum - 1 && recvs(timer) == old(recvs(timer)) + retryNum - 1 [one-backoff-and-one-timer-per-retry]
 //@   inv loop 1: (r.OnRetryHook != nil ==> calls(HOOK) == old(calls(HOOK)) + retryNum - 1) && (r.OnRetryHook == nil ==> calls(HOOK) == old(calls(HOOK))) [one-hook-call-per-failed-retry]
 //@   inv loop 1: r.OnRetryHook != nil ==> (forall j int :: 0 <= j && j < retryNum - 1 ==> arg(HOOK, 0, old(calls(HOOK)) + j) == j + 1 && arg(HOOK, 1, old(calls(HOOK)) + j) == sret(NB, 0, old(ncalls(NB)) + j)) [hook-log]
